@@ -38,20 +38,42 @@ RULE = ("(prog) Field(mesh, nvdim, value, norm, valid) on exact-regime 1-4-d mes
         "x>=0, x^2 = sum v^2 within 8u, |v| exactly for scalars; orientation: |o|^2 = 1 within 16u above the threshold, exactly zero at "
         "or below it, o*norm = v within 8u; constructor = values then norm then validity (valid='norm' reflects the final lengths); "
         "update_field_values == array of a fresh Field with that value; field as norm: target = value of the norm field's cell "
-        "containing the centre (no demand where the centre lies on a face). non-trivial = some non-zero cell and a norm actually set")
+        "containing the centre (no demand where the centre lies on a face). non-trivial = some non-zero cell and a norm actually set. "
+        "ROUND 2: (bits) now 1-7 components (NumPy adds up to seven squares left to right; tolerances of the oracle follow the proved "
+        "(n+c)u bounds beyond four components). (cbits) dtype=complex cells with arbitrary binary64 real and imaginary parts, 1-3 complex "
+        "components: Field.norm, Field.orientation and one norm assignment against the complex rounded kernel cflNormCell / cflSetCell / "
+        "cflOrientCell (|z|^2 = fl(re^2 + fl(im^2)) with a fused multiply-add or fl(fl(re^2)+fl(im^2)) without, division through the "
+        "rounded reciprocal, product with the real target) run with fl64 / sqrt64 - verdict: within the 16u/4u/8u comparator of one of "
+        "the two variants; which variant is bit-identical is recorded (tag cbits:bit-identical-to-fused-complex-kernel on this machine). "
+        "(labels) 30 % of the prog cases pass vdims= (custom labels / [] / None) and vdim_mapping= (dict keyed by the labels / {} / None "
+        "/ single entry on an unlabelled scalar field) to the constructor - model: mkFull?; malformed: wrong count, repeated label, "
+        "foreign keys, mapping with vdims=[]; labels and mapping of the field, of Field.norm and of Field.orientation are compared "
+        "with the model, whose orientation is the constructor call the getter makes (orientation?: an unlabelled vector field comes back "
+        "with default labels - recorded as observation, the oracle demands the labels only where the field has some). (dict) meshes with "
+        "0-3 subregions (index boxes, overlapping, covering or not); norm (constructor argument and later assignments) = dictionary "
+        "{subregion: number | array on the subregion's cells (shape box or box+(1,)) | non-negative polynomial callable, 'default': "
+        "number | callable | absent}, keys in any order, some subregions not listed, wrong-shaped leaves: accepted/refused and every "
+        "array compared with the model (C02's _as_array model for one component); oracle targets computed independently (first listed "
+        "subregion in mesh.subregions order containing the cell, else the default)")
 TRUSTED = ["harness/c15.py, harness/fieldio.py + driver JSON glue",
            "np.linalg.norm(axis=-1) is sqrt of the left-to-right sum of squares (observed bit for bit by the 'bits' stream); np.divide(where=, out=), np.isclose(x, 0) (|x| <= 1e-8) and NumPy broadcasting modelled by contract",
            "DataArray.sel(method='nearest') / pandas get_indexer modelled by contract (nearest coordinate, larger index on a tie; checked exactly incl. ties)",
            "the driver instantiates the sqrt parameter with sqrtQ (proved exact on rational squares; floor at 2^-96 relative resolution elsewhere, used only under the 8u comparator); in the 'bits' stream with sqrt64 (validated bit for bit against np.sqrt; proved: relative error <= 2^-53) and fl64 (proved: |fl64 x - x| <= 2^-53 |x|)",
-           "complex division by the real norm and complex multiplication by the real target act on real and imaginary part separately (exact in real arithmetic; NumPy's reciprocal-multiply rounding is inside the 16u comparator)"]
+           "complex division by the real norm and complex multiplication by the real target act on real and imaginary part separately (exact in real arithmetic; NumPy's reciprocal-multiply rounding is inside the 16u comparator and modelled exactly by cflDivCell: Smith's algorithm with ratio 0, observed bit for bit by the 'cbits' stream)",
+           "whether NumPy forms (conj(z) z).real with a fused multiply-add depends on the machine (SIMD dispatch): both variants are in the model (cflAbs2 fused / plain), proved, and accepted by the comparator",
+           "norm given as a dict: harness/c15.py's dictionary JSON -> C02.Spec glue (dleafOfJson / dictOfJson in Drv/C15.lean) and C02's model of _as_array / Mesh.__getitem__ / region2slices (DFV/Model/C02.lean, tied to the code by C02's own correspondence run)"]
 ASSUMPTIONS = ["theorems carry SqrtAt sqrt x (non-negative root) as an explicit hypothesis at the arguments used; instantiated by sqrtQ on rational squares and by Real.sqrt on all non-negative reals",
-               "rounding theorems carry FlOk fl u (|fl x - x| <= u|x|, the standard model without under/overflow) with u <= 2^-10 and at most four components; instantiated by fl64 (proved) and by any Rounding of Lemmas/Rounding.lean; squared lengths stay within 2^-80 .. 2^1011 in the generators",
+               "rounding theorems carry FlOk fl u (|fl x - x| <= u|x|, the standard model without under/overflow) with u <= 2^-10 and at most four components (table constants) or, for any number n of components, (n+1)^2 u <= 2^-10 (complex cells: (n+2)^2 u <= 2^-10); instantiated by fl64 (proved) and by any Rounding of Lemmas/Rounding.lean; squared lengths stay within 2^-80 .. 2^1011 in the generators",
+               "orientation_is_ctor_call assumes the invariant of live fields (arrays of the mesh's shape, every cell with nvdim entries, labels none or nvdim distinct ones, mapping empty or keyed by the labels); satisfied by every field the constructor returns",
                "a field given as norm has the receiver's dimension names in the same order (selection is by name; other cases are outside the model)",
                "a rejected norm assignment leaves the receiver normalised to unit length (the division has already been stored); the property does not speak about rejected norms, recorded as observation only"]
-UNPROVED = ["sqrt64 is proved to have relative error <= 2^-53 (its square within 2u+3u^2 of the radicand), not to be the CORRECTLY rounded root, and fl64(sqrt64 x) = sqrt64 x is not proved: the end-to-end bounds for the executable kernel (exec64_*) therefore carry 15u / 10u / 13u instead of the 13u / 8u / 10u proved for an exact root with one rounding (both are inside the 16u / 16u oracle tolerances; the norm comparator 4u is justified by the exact-root theorem only)",
-            "rounding bounds for more than four components, for u > 2^-10, and for complex fields (NumPy divides a complex by a real through a reciprocal: two roundings instead of one)",
-            "norm specifications outside the model: dict of subregions (C02's domain), a Field with other dimension names, non-numeric types (str -> TypeError), a complex target on a real field (TypeError)",
-            "Field.orientation as a constructor call with explicit labels/mapping (the model copies them; the getter Field.norm IS proved to be the constructor call)"]
+UNPROVED = ["sqrt64 is proved to have relative error <= 2^-53 (its square within 2u+3u^2 of the radicand), not to be the CORRECTLY rounded root, and fl64(sqrt64 x) = sqrt64 x is not proved: the end-to-end bounds for the executable kernel (exec64_*) therefore carry (n+10)u / (n+6)u / (n+8)u instead of the (n+8)u / (n+4)u / (n+6)u proved for an exact root with one rounding (for n <= 4 all are inside the 16u / 16u oracle tolerances; the norm comparator 4u is justified by the exact-root theorem only)",
+            "rounding bounds for ANY number n of components: the executable kernel (flSqLen, what the driver runs) adds the squares left to right, which is NumPy's order up to SEVEN components (bit-identical, observed); from eight components on NumPy sums pairwise - for that, and for every other bracketing, the rounded-root bounds are proved order-independently (any_order_exec / exec64_any_order: SqTree), but there is no executable kernel in NumPy's pairwise order, so no bit-for-bit comparison beyond seven components, and the exact-root flavour (flNorm_err_any, flSetCell_any, flOrientCell_any) is stated for the left-to-right order only; all rounding bounds need (n+1)^2 u <= 2^-10 (binary64: n < 2*10^6) and exclude under/overflow",
+            "complex fields: the rounded kernel (cfl*) is proved for both ways NumPy forms |z|^2 (fused multiply-add or not) with a ROUNDED root (exec flavour: (n+13)u / (n+7)u / (n+11)u); the exact-root flavour and the per-component table constants are not restated for complex cells",
+            "a dictionary norm's targets are C02's _as_array model for one component (setNorm_spec: accepted iff that conversion is, every cell rescaled to entry i++[0]); WHICH value a cell gets (first listed subregion containing it, default elsewhere) is C02's theorems (asArray_dict_first_containing, dict_cell_*, dict_default_*), not re-proved here - only the agreement of the general path with const / arr / constant-default-without-subregions is (asArray1_spec_agrees); dictionary leaves that are Fields and Field defaults are not generated",
+            "norm specifications still outside the model: a Field with other dimension names (notImpl), non-numeric types (str -> TypeError), a complex target on a real field (TypeError)",
+            "Field.orientation IS proved to be the constructor call with the receiver's labels and mapping (orientation_is_ctor_call) under the invariant of live fields (labels: none or nvdim distinct ones; mapping empty or keyed by the labels); a field that left this invariant through the vdims setter (f.vdims = [] after custom labels, mapping still keyed by them) makes the getter RAISE (orientation_refused_stale_mapping) - the vdims setter itself is not modelled, so this state is not generated (reported as defect witness)",
+            "labels that clash with attribute names (ValueError in the vdims setter) and mapping values None are outside mkFull?"]
 BUDGET = {"quick": 100, "thorough": 900}
 
 U = Fraction(1, 2 ** 53)
@@ -360,6 +382,60 @@ def gen_valid(rng, ms, malformed=False):
     return dict(k=kind)
 
 
+LABELS = [["a", "b", "c", "d", "e"], ["p", "q", "r", "s", "t"], ["m0", "m1", "m2", "m3", "m4"]]
+
+
+def axis_names(ms):
+    nd = len(ms["n"])
+    return list(ms.get("dims") or (["x", "y", "z"][:nd] if nd <= 3 else [f"x{i}" for i in range(nd)]))
+
+
+def gen_labels(rng, ms, nv, case, malformed=False):
+    """constructor arguments vdims / vdim_mapping: None (defaults), custom labels, [] (no labels); mapping None, {},
+    a dict keyed by the labels the field will have (axes may repeat), a single entry on an unlabelled scalar field
+    (dropped by the setter).  malformed: wrong number of labels, repeated label, keys that are not the labels,
+    a mapping together with vdims=[]"""
+    axes = axis_names(ms)
+    if malformed:
+        kind = rng.choice(["count", "dup", "keys", "nolabels"])
+        if kind == "count":
+            case["vdims"] = rng.choice(LABELS)[:nv + 1]
+        elif kind == "dup":
+            case["vdims"] = ["a"] * max(nv, 2)
+        elif kind == "keys":
+            labs = rng.choice(LABELS)[:nv] if nv > 1 or rng.random() < 0.5 else None
+            if labs is not None:
+                case["vdims"] = labs
+            case["vmap"] = [[k, rng.choice(axes)] for k in (["u", "v", "w", "k", "l"][:max(nv, 2)])]
+        else:
+            case["vdims"] = []
+            case["vmap"] = [[k, rng.choice(axes)] for k in (["a", "b", "c", "d", "e"][:max(nv, 2)])]
+        return
+    r = rng.random()
+    labs = None  # the labels the field will have
+    if r < 0.45:
+        labs = rng.choice(LABELS)[:nv]
+        case["vdims"] = list(labs)
+    elif r < 0.6:
+        case["vdims"] = []
+    elif r < 0.7:
+        case["vdims"] = None
+        labs = None if nv == 1 else (["x", "y", "z"][:nv] if nv <= 3 else [f"v{i}" for i in range(nv)])
+    else:
+        labs = None if nv == 1 else (["x", "y", "z"][:nv] if nv <= 3 else [f"v{i}" for i in range(nv)])
+    r = rng.random()
+    if r < 0.3 and labs is not None:
+        keys = list(labs)
+        rng.shuffle(keys)
+        case["vmap"] = [[k, rng.choice(axes)] for k in keys]
+    elif r < 0.4:
+        case["vmap"] = []
+    elif r < 0.5:
+        case["vmap"] = None
+    elif r < 0.6 and nv == 1 and labs is None:
+        case["vmap"] = [["whatever", rng.choice(axes)]]
+
+
 def gen_prog(rng, tier, malformed=False, nv=None):
     ms = fieldio.gen_mesh_spec(rng, max_cells=36 if tier == "quick" else 60, nmax=5)
     nv = nv or rng.choice([1, 2, 3, 3, 4])
@@ -374,9 +450,13 @@ def gen_prog(rng, tier, malformed=False, nv=None):
             case["steps"].append(dict(k="update", value=gen_vspec(rng, ms, nv)))
         else:
             case["steps"].append(dict(k="set_valid", spec=gen_valid(rng, ms)))
+    if not malformed and rng.random() < 0.3:
+        gen_labels(rng, ms, nv, case)
     if malformed:
-        where = rng.choice(["ctor_norm", "ctor_value", "ctor_valid", "nvdim", "step_norm", "step_value", "step_valid"])
+        where = rng.choice(["ctor_norm", "ctor_value", "ctor_valid", "nvdim", "step_norm", "step_value", "step_valid", "labels"])
         case["bad"] = where
+        if where == "labels":
+            gen_labels(rng, ms, nv, case, malformed=True)
         if where == "ctor_norm":
             case["norm"] = gen_nspec(rng, ms, True)
         elif where == "ctor_value":
@@ -392,6 +472,79 @@ def gen_prog(rng, tier, malformed=False, nv=None):
             case["steps"].append(dict(k="update", value=gen_vspec(rng, ms, nv, True)))
         else:
             case["steps"].append(dict(k="set_valid", spec=gen_valid(rng, ms, True)))
+    return case
+
+
+def gen_subs(rng, n, count):
+    """subregions as index boxes [name, k1, k2] (unions of cells): random boxes, the whole mesh, copies of and boxes
+    touching / overlapping earlier ones"""
+    subs, names = [], rng.sample(["r0", "r1", "r2", "core", "shell"], count)
+    for name in names:
+        mode = rng.random()
+        if subs and mode < 0.15:
+            k1, k2 = list(subs[-1][1]), list(subs[-1][2])
+        elif mode < 0.25:
+            k1, k2 = [0] * len(n), list(n)
+        else:
+            k1, k2 = [], []
+            for k in n:
+                a = rng.randint(0, k - 1)
+                b = rng.randint(a + 1, k)
+                if rng.random() < 0.3:
+                    a, b = 0, k
+                k1.append(a)
+                k2.append(b)
+        subs.append([name, k1, k2])
+    return subs
+
+
+def gen_dict_nspec(rng, ms, subs, malformed=False):
+    """norm = {subregion name: number | array on the subregion's cells | callable, ..., 'default': number | callable}
+    (keys in any order, some subregions not listed, default sometimes absent)"""
+    items = []
+    for name, k1, k2 in subs:
+        if rng.random() < 0.75:
+            shape = [b - a for a, b in zip(k1, k2)]
+            kind = rng.choice(["const", "const", "arr", "poly"])
+            if kind == "const":
+                leaf = dict(k="const", v=Q(gen_target(rng)))
+            elif kind == "arr":
+                shp = shape + ([1] if rng.random() < 0.3 else [])
+                leaf = dict(k="arr", shape=shp, data=Qs([Fraction(rng.choice([0, 1, 2, 3, 5, 9]), rng.choice([1, 2, 4])) for _ in range(int(np.prod(shape)))]))
+            else:
+                leaf = dict(k="poly", terms=gen_poly(rng, ms, Fraction(2) ** rng.choice([0, 0, -2, 5])))
+            items.append([name, leaf])
+    rng.shuffle(items)
+    r = rng.random()
+    dflt = None if r < 0.2 else dict(k="const", v=Q(gen_target(rng))) if r < 0.7 else dict(k="poly", terms=gen_poly(rng, ms))
+    if malformed and items:
+        name, leaf = rng.choice(items)
+        k1, k2 = next((a, b) for nm, a, b in subs if nm == name)
+        shape = [b - a for a, b in zip(k1, k2)]
+        shape[rng.randrange(len(shape))] += 1
+        leaf.clear()
+        leaf.update(dict(k="arr", shape=shape, data=Qs([1] * int(np.prod(shape)))))
+    return dict(k="dict", items=items, default=dflt, subs=subs)
+
+
+def gen_dictprog(rng, tier):
+    """fields on meshes WITH subregions; the norm (constructor argument and / or later assignments) is a dictionary
+    over the subregions; other steps as in gen_prog"""
+    ms = fieldio.gen_mesh_spec(rng, max_cells=30, nmax=5)
+    subs = gen_subs(rng, ms["n"], rng.choice([0, 1, 2, 2, 3]))
+    nv = rng.choice([1, 2, 3, 3, 4])
+    bad = rng.random() < 0.1
+    case = dict(kind="prog", mesh=ms, subs=subs, nvdim=nv, value=gen_vspec(rng, ms, nv),
+                norm=(gen_dict_nspec(rng, ms, subs) if rng.random() < 0.5 else None), valid=gen_valid(rng, ms),
+                unit=rng.choice([None, "A/m"]), steps=[])
+    for _ in range(rng.choice([1, 1, 2])):
+        r = rng.random()
+        if r < 0.7:
+            case["steps"].append(dict(k="set_norm", spec=gen_dict_nspec(rng, ms, subs, malformed=bad and rng.random() < 0.5)))
+        elif r < 0.85:
+            case["steps"].append(dict(k="set_norm", spec=gen_nspec(rng, ms)))
+        else:
+            case["steps"].append(dict(k="update", value=gen_vspec(rng, ms, nv)))
     return case
 
 
@@ -443,12 +596,14 @@ def gen_bits(rng, tier):
     binary64 vectors 1e-6..1e150 with components of very different size, exact zeros, vectors around the 1e-8 threshold,
     Pythagorean vectors; constant or per-cell targets (arbitrary binary64, zero in places)"""
     ms = fieldio.gen_mesh_spec(rng, max_cells=16, nmax=4)
-    nv = rng.choice([1, 2, 3, 4])
+    nv = rng.choice([1, 2, 3, 4, 1, 2, 3, 4, 5, 6, 7])  # NumPy adds up to 7 squares left to right (pairwise from 8 on)
     ncell = int(np.prod(ms["n"]))
     r2 = random.Random(rng.getrandbits(32))
     cells = []
     for _ in range(ncell):
         r = r2.random()
+        if nv > 4 and r >= 0.08:
+            r = max(r, 0.2)  # no Pythagorean table beyond four components
         if r < 0.08:
             cells.append([0.0] * nv)
         elif r < 0.2:
@@ -470,6 +625,39 @@ def gen_bits(rng, tier):
     return dict(kind="bits", mesh=ms, nvdim=nv, cells=[Qs(v) for v in cells], targets=Qs(targets), const=const)
 
 
+def gen_cbits(rng, tier):
+    """complex cells for the bit-exact comparison of the complex rounded kernel (|z|^2 with / without a fused
+    multiply-add, division through the rounded reciprocal): 1-3 complex components with arbitrary binary64 real and
+    imaginary parts of very different size, purely real / purely imaginary components, exact zeros, cells around the
+    1e-8 threshold; constant or per-cell real targets.  Cells are stored in the (re, im) view."""
+    ms = fieldio.gen_mesh_spec(rng, max_cells=12, nmax=4)
+    nv = rng.choice([1, 1, 2, 2, 3])
+    ncell = int(np.prod(ms["n"]))
+    r2 = random.Random(rng.getrandbits(32))
+    cells = []
+    for _ in range(ncell):
+        r = r2.random()
+        if r < 0.08:
+            cells.append([0.0] * (2 * nv))
+        elif r < 0.2 and nv <= 2:
+            cells.append([float(x) for x in gen_cell(r2, 2 * nv, r2.choice(["plain", "wide", "tiny", "thresh"]))])
+        else:
+            mag = 10.0 ** r2.uniform(-6, 150) if r < 0.5 else 10.0 ** r2.uniform(-6, 3) if r < 0.85 else 10.0 ** r2.uniform(-8.5, -7.5)
+            v = [r2.gauss(0, 1) * 10.0 ** r2.choice([0, 0, 0, -1, -3, -8]) for _ in range(2 * nv)]
+            if r2.random() < 0.3:  # a purely real or purely imaginary component
+                v[r2.randrange(2 * nv)] = 0.0
+            nrm = math.sqrt(sum(x * x for x in v)) or 1.0
+            cells.append([x / nrm * mag for x in v])
+    if rng.random() < 0.5:
+        t = 10.0 ** r2.uniform(-6, 100) if r2.random() < 0.5 else r2.uniform(0.1, 10)
+        targets = [t] * ncell
+        const = True
+    else:
+        targets = [0.0 if r2.random() < 0.1 else (r2.uniform(0.001, 50) if r2.random() < 0.7 else 10.0 ** r2.uniform(-6, 100)) for _ in range(ncell)]
+        const = False
+    return dict(kind="cbits", mesh=ms, nvdim=nv, cells=[Qs(v) for v in cells], targets=Qs(targets), const=const)
+
+
 def cases(rng, tier):
     N = 1 if tier == "quick" else 6
     # small exhaustive scope: every (nvdim, norm-spec kind family) at least once on a 1-d two-cell mesh is covered by the
@@ -487,12 +675,43 @@ def cases(rng, tier):
         yield gen_cplx(rng, tier)
     for _ in range(120 * N):
         yield gen_bits(rng, tier)
+    for _ in range(60 * N):
+        yield gen_cbits(rng, tier)
+    for _ in range(150 * N):
+        yield gen_dictprog(rng, tier)
 
 
 # ------------------------------------------------------------------ specs -> python objects
+def py_dleaf(l):
+    if l["k"] == "const":
+        return fl(l["v"])
+    if l["k"] == "arr":
+        return np.array([fl(x) for x in l["data"]], dtype=float).reshape(l["shape"])
+    terms = l["terms"]
+    return lambda p: poly_eval_float(terms, p)
+
+
+def mesh_with_subs(ms, subs):
+    if not subs:
+        return fieldio.build_mesh(ms)
+    lo, hi = box_of(ms)
+    cell = [(b - a) / k for a, b, k in zip(lo, hi, ms["n"])]
+    kw = {"dims": ms["dims"]} if ms.get("dims") else {}
+    sr = {}
+    for name, k1, k2 in subs:
+        sr[name] = df.Region(p1=[fl(Q(a + k * c)) for a, k, c in zip(lo, k1, cell)],
+                             p2=[fl(Q(a + k * c)) for a, k, c in zip(lo, k2, cell)], **kw)
+    return fieldio.build_mesh(ms, subregions=sr)
+
+
 def py_nspec(s):
     if s is None:
         return None
+    if s["k"] == "dict":
+        d = {name: py_dleaf(l) for name, l in s["items"]}
+        if s["default"] is not None:
+            d["default"] = py_dleaf(s["default"])
+        return d
     if s["k"] == "const":
         x = fl(s["v"])
         if s.get("py") == "int" and x == int(x) and abs(x) < 2 ** 62:
@@ -548,6 +767,8 @@ def targets_of(s, ms):
         return [poly_eval_frac(s["terms"], p) for p in centres_frac(ms)]
     if s["k"] == "field":
         return field_targets(s, ms)[0]
+    if s["k"] == "dict":
+        return dict_targets(s, ms)
     a = np.array([fr(x) for x in s["data"]], dtype=object).reshape(s["shape"])
     try:
         if list(a.shape) == n:
@@ -559,6 +780,45 @@ def targets_of(s, ms):
     except ValueError:
         return None
     return list(b.reshape(-1))
+
+
+def dict_targets(s, ms):
+    """norm given as a dictionary: per cell the value of the first subregion (order of mesh.subregions) that is a key
+    and contains the cell - a number, the array entry at the cell's index inside the subregion, the callable at the
+    cell centre - else the default; None (no demand, the assignment must be refused) if some cell gets nothing or an
+    array leaf has the wrong shape"""
+    n = list(ms["n"])
+    items = {name: l for name, l in s["items"]}
+    cs = centres_frac(ms)
+    out = []
+    for name, l in s["items"]:
+        if l["k"] == "arr":
+            k1, k2 = next((a, b) for nm, a, b in s["subs"] if nm == name)
+            shape = [b - a for a, b in zip(k1, k2)]
+            if l["shape"] not in (shape, shape + [1]):
+                return None
+
+    def leaf(l, idx, k1, pos):
+        if l["k"] == "const":
+            return fr(l["v"])
+        if l["k"] == "poly":
+            return poly_eval_frac(l["terms"], pos)
+        a = np.array([fr(x) for x in l["data"]], dtype=object).reshape(l["shape"])
+        j = tuple(i - a0 for i, a0 in zip(idx, k1))
+        return a[j + (0,)] if len(l["shape"]) == len(n) + 1 else a[j]
+
+    for idx, pos in zip(np.ndindex(*n), cs):
+        t = None
+        for name, k1, k2 in s["subs"]:
+            if name in items and all(a <= i < b for a, i, b in zip(k1, idx, k2)):
+                t = leaf(items[name], idx, k1, pos)
+                break
+        else:
+            if s["default"] is None:
+                return None
+            t = leaf(s["default"], idx, [0] * len(n), pos)
+        out.append(t)
+    return out
 
 
 def field_targets(s, ms):
@@ -620,8 +880,11 @@ def sq(v):
     return sum((x * x for x in v), Fraction(0))
 
 
-def check_rescaled(name, pre, post, targets, fail):
-    """the property's promise for a norm assignment, cell by cell, in exact arithmetic on the outputs"""
+def check_rescaled(name, pre, post, targets, fail, tol=None):
+    """the property's promise for a norm assignment, cell by cell, in exact arithmetic on the outputs.  tol: allowed
+    relative error of the squared length (16u for the 1-4 components the property ranges over; the streams with more
+    components pass the proved bound plus slack)"""
+    tol = 16 * U if tol is None else tol
     for k, (v, w) in enumerate(zip(pre, post)):
         t = None if targets is None else targets[k]
         if all(x == 0 for x in v):
@@ -637,7 +900,7 @@ def check_rescaled(name, pre, post, targets, fail):
                 return
             continue
         lw = sq(w)
-        if abs(lw - t * t) > 16 * U * t * t:
+        if abs(lw - t * t) > tol * t * t:
             fail(f"{name}: cell {k} was {[float(x) for x in v]}, target norm {float(t)}, result {[float(x) for x in w]} has squared length {float(lw)}")
             return
         for a in range(len(v)):
@@ -652,8 +915,10 @@ def check_rescaled(name, pre, post, targets, fail):
             return
 
 
-def check_derived(name, f, fail, tagset=None):
-    """norm getter and orientation of the live field `f`"""
+def check_derived(name, f, fail, tagset=None, norm_tol=None):
+    """norm getter and orientation of the live field `f`.  norm_tol: allowed relative error of the squared norm (8u for
+    1-4 real components; more components / complex parts pass the proved bound)"""
+    norm_tol = 8 * U if norm_tol is None else norm_tol
     v = rows(f)
     nv = f.nvdim
     nf = f.norm
@@ -664,17 +929,21 @@ def check_derived(name, f, fail, tagset=None):
     x = [Fraction(float(a)) for a in nf.array.reshape(-1).tolist()]
     for k in range(len(v)):
         l2 = sq(v[k])
-        if x[k] < 0 or abs(x[k] * x[k] - l2) > 8 * U * l2:
+        if x[k] < 0 or abs(x[k] * x[k] - l2) > norm_tol * l2:
             fail(f"{name}: norm at cell {k} is {float(x[k])} for vector {[float(a) for a in v[k]]}")
             return
         if len(v[k]) == 1 and x[k] != abs(v[k][0]):
             fail(f"{name}: scalar norm at cell {k} is {float(x[k])}, |value| is {float(abs(v[k][0]))}")
             return
     of = f.orientation
+    # labels: demanded only where the field has some (the getter hands vdims=None to the constructor, which re-applies
+    # the default labels to an unlabelled vector field; the property does not speak about labels - recorded as a tag)
     if not (of.nvdim == nv and of.mesh == f.mesh and np.array_equal(of.valid, f.valid)
-            and list(of.vdims or []) == list(f.vdims or []) and of.vdim_mapping == f.vdim_mapping):
+            and (f.vdims is None or list(of.vdims or []) == list(f.vdims)) and of.vdim_mapping == f.vdim_mapping):
         fail(f"{name}: orientation changed mesh, component count, labels, mapping or validity")
         return
+    if tagset is not None and f.vdims is None and of.vdims is not None:
+        tagset.add("observation:orientation-of-unlabelled-vector-field-has-default-labels")
     o = rows(of)
     for k in range(len(v)):
         l2 = sq(v[k])
@@ -712,6 +981,12 @@ def nspec_tags(s, ms):
         same = (lo, hi, list(ms["n"])) == (hlo, hhi, list(s["mesh"]["n"]))
         ties = field_targets(s, ms)[1]
         return ["norm-field:" + ("same-mesh" if same else "other-mesh")] + (["norm-field:centre-on-face"] if any(ties) else [])
+    if s is not None and s["k"] == "dict":
+        t = dict_targets(s, ms)
+        return ["norm-dict", f"norm-dict:items={len(s['items'])}/subs={len(s['subs'])}",
+                "norm-dict:default=" + (s["default"]["k"] if s["default"] else "None"),
+                "norm-dict:" + ("well-formed" if t is not None else "some-cell-without-value-or-bad-leaf")] + \
+               ["norm-dict-leaf:" + l["k"] for _, l in s["items"]]
     if s is None or s["k"] != "arr":
         return []
     n = list(ms["n"])
@@ -745,19 +1020,28 @@ def run_impl(case):
     obs = {"oracle": [], "tags": [], "snaps": [], "pre": [], "err_at": None}
     fail = obs["oracle"].append
     ms, nv = case["mesh"], case["nvdim"]
-    mesh = fieldio.build_mesh(ms)
+    mesh = mesh_with_subs(ms, case.get("subs"))
     obs["mesh"] = fieldio.mesh_json(mesh)
     tags = obs["tags"]
     if case.get("kind") == "cplx":
         return run_impl_cplx(case, obs, mesh)
     if case.get("kind") == "bits":
         return run_impl_bits(case, obs, mesh)
+    if case.get("kind") == "cbits":
+        return run_impl_cbits(case, obs, mesh)
     tags.append("generic" if case.get("generic") else ("malformed:" + case["bad"] if case.get("bad") else "exact"))
     tags += [f"nvdim:{nv}", f"ndim:{len(ms['n'])}", "ctor-norm:" + (case["norm"]["k"] if case["norm"] else "None"),
              "ctor-valid:" + case["valid"]["k"], "value:" + case["value"]["k"]]
+    kw = {}
+    if "vdims" in case:
+        kw["vdims"] = case["vdims"]
+        tags.append("ctor-vdims:" + ("None" if case["vdims"] is None else "removed" if case["vdims"] == [] else "custom"))
+    if "vmap" in case:
+        kw["vdim_mapping"] = None if case["vmap"] is None else {k: v for k, v in case["vmap"]}
+        tags.append("ctor-vmap:" + ("None" if case["vmap"] is None else "empty" if case["vmap"] == [] else "dict"))
     try:
         f = df.Field(mesh, nvdim=nv, value=py_vspec(case["value"], nv), norm=py_nspec(case["norm"]),
-                     valid=py_valid(case["valid"]), unit=case["unit"])
+                     valid=py_valid(case["valid"]), unit=case["unit"], **kw)
     except (TypeError, ValueError, IndexError, KeyError) as e:
         obs["err_at"] = -1
         obs["err"] = type(e).__name__
@@ -813,6 +1097,8 @@ def run_impl(case):
             obs["state_after_rejection_changed"] = rows(f) != pre_rows
             if obs["state_after_rejection_changed"]:
                 tags.append("observation:rejected-norm-left-field-normalised")
+            if st["k"] == "set_norm" and st.get("spec") and st["spec"]["k"] == "dict":
+                tags.append("step:err:norm-dict")
             tags += sorted(tagset)
             return obs
         obs["pre"].append(pre_json)
@@ -888,7 +1174,7 @@ def run_impl_bits(case, obs, mesh):
     f = df.Field(mesh, nvdim=nv, value=a)
     pre = rows(f)
     tagset = set()
-    check_derived("bits: fresh field", f, fail, tagset)
+    check_derived("bits: fresh field", f, fail, tagset, norm_tol=max(8, nv + 6) * U)
     obs["norm0"] = Qs(f.norm.array.reshape(-1).tolist())
     obs["orient0"] = [Qs(r) for r in f.orientation.array.reshape(-1, nv).tolist()]
     ts = [fl(x) for x in case["targets"]]
@@ -896,7 +1182,7 @@ def run_impl_bits(case, obs, mesh):
     post = rows(f)
     obs["set1"] = [Qs(r) for r in f.array.reshape(-1, nv).tolist()]
     targets = [fr(x) for x in case["targets"]]
-    check_rescaled("bits: norm assignment", pre, post, targets, fail)
+    check_rescaled("bits: norm assignment", pre, post, targets, fail, tol=max(16, nv + 12) * U)
     tagset.update(cell_tags(pre, targets))
     obs["nonzero"] = any(any(x != 0 for x in v) for v in pre)
     obs["normset"] = True
@@ -905,6 +1191,54 @@ def run_impl_bits(case, obs, mesh):
     ident = bits_mismatch(obs, ref, strict=True) is None
     obs["tags"] += ["bits", "bits:" + ("bit-identical-to-fl64-kernel" if ident else "NOT-bit-identical-to-fl64-kernel"),
                     f"nvdim:{nv}", "bits-target:" + ("const" if case["const"] else "array")] + sorted(tagset)
+    return obs
+
+
+def cbits_verdict(obs, outs, strict):
+    """the complex kernel has two legitimate variants (NumPy's SIMD loop forms |z|^2 with a fused multiply-add where the
+    machine has one): a mismatch is a mismatch with BOTH.  Returns (text or None, name of the variant that matched)"""
+    whys = {}
+    for variant in ("fused", "plain"):
+        why = bits_mismatch(obs, [o[variant] for o in outs], strict)
+        if why is None:
+            return None, variant
+        whys[variant] = why
+    return "complex " + whys["fused"], None
+
+
+def run_impl_cbits(case, obs, mesh):
+    """norm getter, orientation and one norm assignment on arbitrary complex binary64 cells (dtype=complex); every
+    output number is recorded exactly, arrays in the (re, im) view"""
+    fail = obs["oracle"].append
+    ms, nv = case["mesh"], case["nvdim"]
+    n = list(ms["n"])
+    a = np.array([[fl(x) for x in row] for row in case["cells"]], dtype=float).reshape(-1, 2 * nv)
+    a = np.ascontiguousarray(a).view(complex).reshape(*n, nv)
+    f = df.Field(mesh, nvdim=nv, value=a)
+    if not np.iscomplexobj(f.array) or not np.array_equal(f.array, a):
+        fail("Field(mesh, value=<complex array>) does not hold the complex values")
+        return obs
+    pre = rows(f)
+    tagset = set()
+    check_derived("cbits: fresh complex field", f, fail, tagset, norm_tol=(nv + 7) * U)
+    obs["norm0"] = Qs(f.norm.array.reshape(-1).tolist())
+    obs["orient0"] = [Qs(r) for r in real_view(f.orientation.array, nv).tolist()]
+    ts = [fl(x) for x in case["targets"]]
+    f.norm = ts[0] if case["const"] else np.array(ts, dtype=float).reshape(n)
+    if not np.iscomplexobj(f.array):
+        fail("cbits: the field is no longer complex after a norm assignment")
+        return obs
+    post = rows(f)
+    obs["set1"] = [Qs(r) for r in real_view(f.array, nv).tolist()]
+    targets = [fr(x) for x in case["targets"]]
+    check_rescaled("cbits: norm assignment", pre, post, targets, fail, tol=max(16, nv + 13) * U)
+    tagset.update(cell_tags(pre, targets))
+    obs["nonzero"] = any(any(x != 0 for x in v) for v in pre)
+    obs["normset"] = True
+    ref = core.driver([dict(op="cfl_cells", cells=case["cells"], targets=case["targets"], atol=Q(ATOL))], PID)[0]["ok"]
+    why, variant = cbits_verdict(obs, ref, strict=True)
+    obs["tags"] += ["cbits", "cbits:" + (f"bit-identical-to-{variant}-complex-kernel" if why is None else "NOT-bit-identical-to-complex-kernel"),
+                    f"nvdim:{nv}-complex", "bits-target:" + ("const" if case["const"] else "array")] + sorted(tagset)
     return obs
 
 
@@ -984,7 +1318,7 @@ def drv_nspec(s):
         return None
     if s["k"] == "field":
         return dict(k="field", field=fieldio.field_json(py_nspec(s)))
-    return {k: v for k, v in s.items() if k not in ("as", "py")}
+    return {k: v for k, v in s.items() if k not in ("as", "py", "subs")}
 
 
 def drv_step(st):
@@ -1000,6 +1334,8 @@ def model_requests(case, obs):
         return []
     if case.get("kind") == "bits":
         return [dict(op="fl_cells", cells=case["cells"], targets=case["targets"], atol=Q(ATOL))] if "set1" in obs else []
+    if case.get("kind") == "cbits":
+        return [dict(op="cfl_cells", cells=case["cells"], targets=case["targets"], atol=Q(ATOL))] if "set1" in obs else []
     if case.get("kind") == "cplx":
         if "plain" not in obs:
             return []
@@ -1010,13 +1346,13 @@ def model_requests(case, obs):
             reqs.append(dict(op="field_prog", field=pre, atol=Q(ATOL), steps=[drv_step(case["steps"][si])]))
         return reqs
     reqs = [dict(op="ctor_prog", mesh=obs["mesh"], nvdim=case["nvdim"], value=case["value"], norm=drv_nspec(case["norm"]),
-                 valid=case["valid"], unit=case["unit"], atol=Q(ATOL), steps=[])]
+                 valid=case["valid"], unit=case["unit"], atol=Q(ATOL), steps=[], vdims=case.get("vdims"), vmap=case.get("vmap"))]
     for si, pre in enumerate(obs["pre"]):
         reqs.append(dict(op="field_prog", field=pre, atol=Q(ATOL), steps=[drv_step(case["steps"][si])]))
     return reqs
 
 
-def cmp_meta(name, a, b, dis):
+def cmp_meta(name, a, b, dis, labels=True):
     for key in ("n",):
         if a["mesh"][key] != b["mesh"][key]:
             dis.append(f"{name}: mesh {key} impl {a['mesh'][key]} vs model {b['mesh'][key]}")
@@ -1031,9 +1367,9 @@ def cmp_meta(name, a, b, dis):
     if a["nvdim"] != b["nvdim"]:
         dis.append(f"{name}: nvdim impl {a['nvdim']} vs model {b['nvdim']}")
         return False
-    if a["vdims"] != b["vdims"]:
+    if labels and a["vdims"] != b["vdims"]:
         dis.append(f"{name}: vdims impl {a['vdims']} vs model {b['vdims']}")
-    if sorted(map(tuple, a["vmap"])) != sorted(map(tuple, b["vmap"])):
+    if labels and sorted(map(tuple, a["vmap"])) != sorted(map(tuple, b["vmap"])):
         dis.append(f"{name}: vdim_mapping impl {a['vmap']} vs model {b['vmap']}")
     if a["unit"] != b["unit"]:
         dis.append(f"{name}: unit impl {a['unit']} vs model {b['unit']}")
@@ -1077,7 +1413,7 @@ def cell_info(field_json):
     return info_of([[F(x) for x in row] for row in field_json["data"]])
 
 
-def cmp_snap(name, impl, model, dis, rounded):
+def cmp_snap(name, impl, model, dis, rounded, labels=True):
     """impl/model: dict(field, norm, orientation).  rounded: the field itself went through the setter's division and
     multiplication (allowed 16u per component against the exact model); otherwise it must equal the model exactly.
     Tolerances are deliberately a few times the derived rounding bounds (setter <= 5u, norm <= 3u, orientation <= 4u)
@@ -1093,7 +1429,9 @@ def cmp_snap(name, impl, model, dis, rounded):
         # field the norm inherits the relative error
         cmp_data(name + " norm", impl["norm"], model["norm"], dis,
                  lambda k: frel + (Fraction(0) if info[k][1] else 4 * U))
-    if cmp_meta(name + " orientation", impl["orientation"], model["orientation"], dis):
+    if "err" in model["orientation"]:
+        dis.append(f"{name}: Field.orientation: impl returned a field vs model (the getter's constructor call) {model['orientation']}")
+    elif cmp_meta(name + " orientation", impl["orientation"], model["orientation"], dis, labels=labels):
         def near(k):  # boundary comparator: length within rounding of the threshold -> either outcome
             l2, single = info[k]
             return (rounded or not single) and abs(l2 - ATOL * ATOL) <= (64 * U + 4 * frel) * ATOL * ATOL
@@ -1111,6 +1449,11 @@ def compare(case, obs, rs):
         if why:
             dis.append(why)
         return dis
+    if case.get("kind") == "cbits":
+        why, _ = cbits_verdict(obs, r0["ok"], strict=False)
+        if why:
+            dis.append(why)
+        return dis
     if case.get("kind") == "cplx":
         outs = r0["ok"]["steps"]
         bad = any("ok" not in o for o in outs)
@@ -1121,7 +1464,7 @@ def compare(case, obs, rs):
         if bad:
             dis.append(f"complex constructor: impl ok vs model {outs[-1]}")
             return dis
-        cmp_snap("complex constructor", obs["snaps"][0], outs[-1]["ok"], dis, case["norm"] is not None)
+        cmp_snap("complex constructor", obs["snaps"][0], outs[-1]["ok"], dis, case["norm"] is not None, labels=False)
     elif obs["err_at"] == -1:
         if "err" not in r0:
             dis.append(f"constructor: impl raised {obs.get('err')} vs model ok")
@@ -1142,7 +1485,8 @@ def compare(case, obs, rs):
         if "ok" not in out:
             dis.append(f"{name}: impl ok vs model {out}")
             break
-        cmp_snap(name, obs["snaps"][si + 1], out["ok"], dis, st["k"] == "set_norm" and st["spec"] is not None)
+        cmp_snap(name, obs["snaps"][si + 1], out["ok"], dis, st["k"] == "set_norm" and st["spec"] is not None,
+                 labels=case.get("kind") != "cplx")  # a complex field goes to the model as its (re, im) view: other component count, so other default labels
     return dis
 
 
